@@ -40,17 +40,30 @@ where
 
 def vals : List Rat := [0, 1, 2, -1]
 
-/-- assignments: the first four variables range over all of `vals`, further ones follow a fixed rotation. -/
-def assignmentsFor (vs : List String) : List (String → Rat) :=
+/-- assignments: the first four variables range over all of `vals` (further ones follow a fixed rotation),
+plus three generic ones in which every variable gets a different value away from 0 / 1 (`x / 2 / 4` against
+`x / (2 / 4)` needs x ≠ 0; sums and products of equal values can hide a regrouping). Named `where`
+constants keep their value in every assignment. -/
+def assignmentsFor (vs : List String) (consts : List (String × Rat)) : List (String → Rat) :=
+  let vs := vs.filter fun v => !(consts.any (·.1 == v))
   let main := vs.take 4
   let extra := vs.drop 4
-  (Oracle.assignments vals main).map fun a s =>
+  let fixed (ρ : String → Rat) : String → Rat := fun s =>
+    match consts.find? (·.1 == s) with
+    | some p => p.2
+    | none => ρ s
+  let grid : List (String → Rat) := (Oracle.assignments vals main).map fun a s =>
     match a.find? (·.1 == s) with
     | some p => p.2
     | none =>
       match extra.findIdx? (· == s) with
       | some i => vals.getD ((i + a.length) % 4) 1
       | none => 1
+  let generic : List (String → Rat) := [
+    (fun s => match vs.findIdx? (· == s) with | some i => (2 * i + 3 : Nat) | none => 7),
+    (fun s => match vs.findIdx? (· == s) with | some i => ((i : Int) + 2 : Int) / (2 : Rat) - 3 | none => 5 / 2),
+    (fun s => match vs.findIdx? (· == s) with | some i => -((3 * i + 5 : Nat) : Rat) / 4 | none => -7 / 4)]
+  (grid ++ generic).map fixed
 
 def close (v w : Rat) : Bool :=
   let d := if v < w then w - v else v - w
@@ -83,14 +96,14 @@ def decodeImpl : Sexp → Option (Option Ref.E)
   | _ => none
 
 /-- the documented reading of the tokens against the implementation's tree -/
-def judge (toks : List Tok) (ie : Option Ref.E) : Verdict :=
+def judge (toks : List Tok) (ie : Option Ref.E) (consts : List (String × Rat) := []) : Verdict :=
   match Ref.parse toks, ie with
   | none, none => .bothReject
   | some _, none => .rejectsWellformed
   | none, some _ => .acceptsIllformed
   | some r, some i =>
     let vs := Oracle.dedup (Oracle.vars r ++ Oracle.vars i)
-    let asg := assignmentsFor vs
+    let asg := assignmentsFor vs consts
     match asg.find? (fun ρ => !(sameVal (Sem.eval ρ r) (Sem.eval ρ i))) with
     | some ρ => .value vs ρ (Sem.eval ρ r) (Sem.eval ρ i)
     | none => .agree asg.length
@@ -121,6 +134,13 @@ implementation's tree (compiled `Exp` when the program compiled, else its `PreEx
 independent precedence-climbing reading of the same text, at every assignment over {0,1,2,-1}.
 A deviation in a text with a `true…`/`false…` word is attributed to the `boolean` rule only if the
 same text with those words renamed (`twin`) shows no deviation. -/
+def decodeConsts (more : List Sexp) : List (String × Rat) :=
+  more.flatMap fun
+    | .list (.atom "consts" :: cs) => cs.filterMap fun
+      | .list [.str k, .str v] => some (k, Ref.ratOfLexeme v)
+      | _ => none
+    | _ => []
+
 def oracle : List Sexp → Sexp
   | .atom "check" :: .str s :: impl :: more =>
     match lex s.toList with
@@ -129,14 +149,15 @@ def oracle : List Sexp → Sexp
       match decodeImpl impl with
       | none => app "err" [.atom "decode"]
       | some ie =>
-        let v := judge toks ie
+        let consts := decodeConsts more
+        let v := judge toks ie consts
         if v.isOk then report s v
         else
-          match more with
-          | [.list [.atom "twin", .str s2, impl2]] =>
+          match more.find? (fun | .list (.atom "twin" :: _) => true | _ => false) with
+          | some (.list [.atom "twin", .str s2, impl2]) =>
             match lex s2.toList, decodeImpl impl2 with
             | .ok toks2, some ie2 =>
-              if hasBoolPrefixWord toks && (judge toks2 ie2).isOk then
+              if hasBoolPrefixWord toks && (judge toks2 ie2 consts).isOk then
                 app "violation" [.atom (boolQuirkKind toks), .str s]
               else report s v
             | _, _ => report s v
